@@ -54,6 +54,13 @@ instance instDecidableWF (v : Variant) (orig : Bytes) : (s : St) → (es : List 
     | isFalse h1, _ => isFalse (fun h => h1 h.1)
     | _, isFalse h2 => isFalse (fun h => h2 h.2)
 
+/-- events that are not client writes or size changes (download chunks, `download_done`, queue turns,
+reads, close): they leave the reference alone -/
+def Ev.keepsRef : Ev → Bool
+  | .overwrite _ _ => false
+  | .setSize _ => false
+  | _ => true
+
 /-- the trace of a history: after each event, the state, the reference and the reads that completed -/
 def trace (v : Variant) (orig : Bytes) : St → Bytes → List Ev → List (St × Bytes × List Out)
   | _, _, [] => []
